@@ -53,6 +53,14 @@ def secret_kinds(what, owner):
     return "+".join(sorted(kinds)) or "secret"
 
 
+REQ_CLASS = {"m": "manifest", "c": "blob", "l": "blob", "x": "blob", "u": "upload", "g": "tag-list", "f": "referrers",
+             "k": "referrers-tag", "o": "other", "t": "token"}
+
+
+def req_class(ev):
+    return REQ_CLASS.get(ev.get("obj"), "other")
+
+
 def role_of(host, events, upto, conf):
     """How the host got involved in this run.  P has the DNS name of registry A but another port."""
     if host in TOKEN_HOSTS:
@@ -105,9 +113,18 @@ def signature(trace, idx, bad, after_o1=False):
         # a configured registry / mirror that names the realm too does so for its own clientHost; what
         # matters is which unconfigured hosts named it for this one
         foreign = [n for n in namers if n not in ("registry", "mirror")]
-        return "O1:%s-of-%s-to-token-host:named-by-%s" % (what, orole, "+".join(foreign or namers) or "nobody")
+        sig = "O1:%s-of-%s-to-token-host:named-by-%s" % (what, orole, "+".join(foreign or namers) or "nobody")
+        if not foreign:
+            # between configured hosts: name the request class that was being authenticated
+            last = [e for e in events[:idx] if e["ev"] == "msg" and e["to"] not in TOKEN_HOSTS]
+            sig += ":for-" + (req_class(last[-1]) if last else "other")
+        return sig
     how = "after-its-401" if any(e["ev"] == "challenge" and e["from"] == to for e in events[:idx]) else "unchallenged"
-    return "O1:%s-of-%s-to-%s:%s" % (what, orole, role_of(to, events, idx, conf), how)
+    trole = role_of(to, events, idx, conf)
+    sig = "O1:%s-of-%s-to-%s:%s" % (what, orole, trole, how)
+    if trole in ("registry", "mirror"):
+        sig += ":on-" + req_class(ev)     # between configured hosts: name the request class
+    return sig
 
 
 # ----------------------------------------------------------------------------------------------
